@@ -1,6 +1,6 @@
 (* Non-vacuity: concrete graphs meeting the hypotheses of the C02 theorems. *)
 From V Require Import Common.Base C02.Graph C02.Order C02.SpecESM C02.Wrap C02.Resolve C02.ResolveSpec
-  C02.DataUrl C02.SpecDataUrl C02.OrderProofs C02.OrderEsmProofs C02.ResolveProofs C02.WrapProofs C02.DataUrlProofs.
+  C02.DataUrl C02.SpecDataUrl C02.OrderProofs C02.OrderEsmProofs C02.ResolveProofs C02.WrapProofs C02.DataUrlProofs C02.Emit C02.EmitProofs.
 
 (* diamond with a back edge: 1 -> 2,3 ; 2 -> 4 ; 3 -> 4 ; 4 -> 1 (cycle); file 0 is the runtime *)
 Definition ex_graph : graph :=
@@ -80,3 +80,12 @@ Example ex_classify_orders :
   classify true ex_wrap [0; 1; 2; 3; 4]%nat = classify true ex_wrap [4; 3; 2; 1; 0]%nat
   /\ map snd (classify true ex_wrap [0; 1; 2; 3; 4]%nat) = [WNone; WCJS; WESM; WNone; WNone].
 Proof. vm_compute. split; reflexivity. Qed.
+
+(* entry exports: table {own, fromMid}, one run-time export star providing {default, fromLeaf, own} *)
+Example ex_emit :
+  let names_of := fun _ : nat => [0; 5; 1] in
+  exported_names names_of FCjs true [1; 2] [0%nat] = [1; 2; 5] /\
+  exported_names names_of (FIife true) true [1; 2] [0%nat] = [1; 2; 5] /\
+  exported_names names_of FEsm true [1; 2] [0%nat] = [1; 2] /\
+  entry_stmts FCjs true [1; 2] [0%nat] = [XExport [1; 2]; XAssignModuleExports; XReExport 0 true].
+Proof. vm_compute. repeat split. Qed.
